@@ -6,7 +6,7 @@
     PublisherConfig, every answer script of the wrapped publisher, every sequence of calls over a
     heap of (possibly re-published) objects, every emit/Ack/Nack/Close sequence, every sequence of
     handler outcomes. *)
-From WM Require Import Base.Prelude Message.Model Decor.Model Decor.Monitor Decor.Proofs Decor.SubProofs.
+From WM Require Import Base.Prelude Message.Model Decor.Model Decor.Monitor Decor.Heap Decor.Proofs Decor.SubProofs Decor.SubAccept Decor.HeapProofs Decor.HeapRefine.
 
 (** ** publisher decorators are transparent *)
 
@@ -141,6 +141,64 @@ Theorem C20_publish_model_accepted : forall st heap script calls tab,
   pub_monitor st (pobs_run st (PS heap script [] [] []) calls) tab = true.
 Proof. exact pub_monitor_model. Qed.
 
+(** ** Publish in place: the same *Message several times in one batch (Decor/Heap.v) *)
+
+(** no repeated position in the batch: the in-place model IS the by-value model (written back),
+    so every theorem above holds of it; also for whole call sequences *)
+Theorem C20_inplace_refines : forall st script topic idx h, NoDup idx -> hvalid_all h idx ->
+  ho_script (publish_h st script topic idx h) = po_script (publish st script topic (hreads h idx))
+  /\ ho_ev (publish_h st script topic idx h) = po_ev (publish st script topic (hreads h idx))
+  /\ ho_obs (publish_h st script topic idx h) = po_obs (publish st script topic (hreads h idx))
+  /\ ho_res (publish_h st script topic idx h) = po_res (publish st script topic (hreads h idx))
+  /\ ho_heap (publish_h st script topic idx h) = write h idx (po_msgs (publish st script topic (hreads h idx))).
+Proof. exact publish_h_refines. Qed.
+Theorem C20_inplace_sequence_refines : forall st calls s,
+  good_calls (length (ps_heap s)) calls ->
+  fold_left (pstep_h st) calls s = fold_left (pstep st) calls s.
+Proof. exact prun_h_refines. Qed.
+
+(** ANY batch, repetitions allowed: identities and contents untouched; the wrapped publisher is
+    called at most once, with the same positions in order on the same topic, and its answer comes
+    back unchanged; without a call the result is an error and the script is untouched *)
+Theorem C20_duplicates_transparent : forall st script topic idx h,
+  map pm_id (ho_heap (publish_h st script topic idx h)) = map pm_id h
+  /\ map pm_rest (ho_heap (publish_h st script topic idx h)) = map pm_rest h
+  /\ ((inner_calls (ho_ev (publish_h st script topic idx h)) = []
+       /\ (exists e, ho_res (publish_h st script topic idx h) = Some e)
+       /\ ho_script (publish_h st script topic idx h) = script)
+      \/ (inner_calls (ho_ev (publish_h st script topic idx h))
+          = [(topic, hreads (ho_heap (publish_h st script topic idx h)) idx)]
+          /\ ho_res (publish_h st script topic idx h) = hd None script
+          /\ ho_script (publish_h st script topic idx h) = tl script)).
+Proof. exact publish_h_shape. Qed.
+Theorem C20_duplicates_acceptor : forall st script topic idx h,
+  call_ok_dup (PObs topic (hreads h idx) (ho_ev (publish_h st script topic idx h)) (hd None script)
+                    (ho_res (publish_h st script topic idx h))
+                    (hreads (ho_heap (publish_h st script topic idx h)) idx)) = true.
+Proof. exact publish_h_call_ok_dup. Qed.
+
+(** the acceptor the check runs ([pub_monitor_any]) accepts every run of the in-place model whose
+    batches repeat nothing.  Partial for batches WITH repetition: there [call_ok_dup] is proved
+    ([C20_duplicates_acceptor]) but the counting clause is compared with the code, not proved *)
+Theorem C20_publish_inplace_model_accepted : forall st heap script calls tab,
+  good_calls (length heap) calls ->
+  counts_agree plabel_eqb tab (ps_obs (prun_h st heap script calls)) = true ->
+  pub_monitor_any st (pobs_run_h st (PS heap script [] [] []) calls) tab = true.
+Proof. exact pub_monitor_any_model. Qed.
+
+(** ** a wrapped publisher that panics (script answer [e_panic]) *)
+Theorem C20_publish_panic_escapes : forall st script topic msgs,
+  stack_reject st msgs = None -> hd None script = Some e_panic ->
+  po_res (publish st script topic msgs) = Some e_panic.
+Proof. exact publish_panic_escapes. Qed.
+(** the label the model uses is the repaired one: a panic is a failure; the pinned decorator
+    recorded it as a success (refuted, repaired by fix 9061e12) *)
+Theorem C20_publish_label_repaired : forall n m r, pub_label n m r = pub_label_v true n m r.
+Proof. exact pub_label_is_fixed. Qed.
+Theorem C20_publish_panic_refuted :
+  pub_success true (Some e_panic) = false /\ pub_success false (Some e_panic) = true.
+Proof. exact pub_panic_labels. Qed.
+
 (** ** subscriber decorators *)
 
 (** one pass through any stack: content, settlement state and context names untouched, every
@@ -190,6 +248,25 @@ Theorem C20_received_counted_once : forall stk heap ops i m,
   else [].
 Proof. exact received_counted_once. Qed.
 
+(** the aggregated counter table: label by label the model's log has exactly the specified
+    counts (one per delivered and settled object), for every stack — also one without the metrics
+    decorator, which observes nothing *)
+Theorem C20_received_table_counts : forall stk heap ops l,
+  forallb sfresh heap = true ->
+  count slabel_eqb l (map sobs_label (sw_obs (srun stk heap ops)))
+  = count slabel_eqb l (spec_sub_obs stk heap ops).
+Proof. exact srun_counts. Qed.
+
+(** every run of the model — any stack, any heap of fresh objects, any emit/Ack/Nack/Close
+    sequence incl. re-deliveries — is accepted by the acceptor that judges the implementation:
+    delivery order, one transform pass per delivery, final settlements, Close, counter table *)
+Theorem C20_subscribe_model_accepted : forall stk heap ops crets tab,
+  forallb sfresh heap = true ->
+  length crets = count_closes ops ->
+  counts_agree slabel_eqb tab (map sobs_label (sw_obs (srun stk heap ops))) = true ->
+  sub_monitor stk heap ops (sseen_of_run stk heap ops crets tab) = true.
+Proof. exact sub_monitor_model. Qed.
+
 (** ** handler middleware *)
 
 (** (repaired code) applied once: every invocation counted exactly once; success="true" exactly
@@ -231,12 +308,22 @@ Print Assumptions C20_delay_allow_no_delay.
 Print Assumptions C20_publish_counted_once.
 Print Assumptions C20_publish_sequence_counted.
 Print Assumptions C20_publish_model_accepted.
+Print Assumptions C20_inplace_refines.
+Print Assumptions C20_inplace_sequence_refines.
+Print Assumptions C20_duplicates_transparent.
+Print Assumptions C20_duplicates_acceptor.
+Print Assumptions C20_publish_inplace_model_accepted.
+Print Assumptions C20_publish_panic_escapes.
+Print Assumptions C20_publish_label_repaired.
+Print Assumptions C20_publish_panic_refuted.
 Print Assumptions C20_subscribe_message_untouched.
 Print Assumptions C20_subscribe_same_order.
 Print Assumptions C20_settlement_transparent.
 Print Assumptions C20_settlement_first_wins.
 Print Assumptions C20_subscriber_close_once.
 Print Assumptions C20_received_counted_once.
+Print Assumptions C20_received_table_counts.
+Print Assumptions C20_subscribe_model_accepted.
 Print Assumptions C20_handler_counted_once.
 Print Assumptions C20_handler_acceptor_sound.
 Print Assumptions C20_handler_layers.
@@ -276,4 +363,13 @@ Example C20_witness_subscriber :
   map sobs_label (sw_obs w) = [(no_handler, 30%N, false)]
   /\ map fst (sw_out w) = [0; 1] /\ sw_closes w = 1
   /\ map (fun m => st (sm_st m)) (sw_heap w) = [Nacked; Unsettled].
+Proof. vm_compute. repeat split. Qed.
+
+(** the same object twice in one batch under a transform and a delay layer: transformed twice,
+    stamped once (the generator is asked once), one call of the wrapped publisher with both positions *)
+Example C20_witness_duplicate :
+  let m := PM 0 7 [] MAbsent MAbsent None (GDelay (D 100 3)) false 0 0 in
+  let o := publish_h [PTransform 11; PDelay true false] [] 6%N [0; 0] [m] in
+  map pm_trail (ho_heap o) = [[11%N; 11%N]] /\ map pm_for (ho_heap o) = [MDur 3]
+  /\ ho_ev o = [EvGen 6%N 0%N; EvInner 6%N (hreads (ho_heap o) [0; 0])] /\ ho_res o = None.
 Proof. vm_compute. repeat split. Qed.
